@@ -7,6 +7,10 @@ PART = {}
 FUNCTIONS = ["miros.activeobject.FabricEvent.__lt__/__eq__", "miros.activeobject.ActiveFabricSource.publish",
              "miros.activeobject.ActiveFabricSource.thread_runner_fifo/thread_runner_lifo", "queue.PriorityQueue / heapq (real; its comparisons call back into FabricEvent)"]
 ASSUMPTIONS = [
+  "E2 part: a caller thread runs a script of real ActiveFabricSource.subscribe / publish calls while the real thread_runner_fifo / thread_runner_lifo run as "
+  "delivery threads, all translated from /repo's source on this run; the priority queues are contract models (items leave by priority, then arrival; the real "
+  "heap and FabricEvent ordering are the E1 part's subject), the registries are dict models whose values are python lists created at run time (list iterators "
+  "advance one step at a time against the live list), subscriber queues are plain deques",
   "priorities are symbolic ints (0..2) all the way through the real heap: heapq's comparisons call FabricEvent.__lt__ on them, the solver decides each comparison",
   "lag pattern: after publication i the delivery body consumes m_i items (concrete per partition, all patterns enumerated); at the end it drains the queue; "
   "phase interleaving only (whole loop iterations between publish calls)",
@@ -136,4 +140,51 @@ def jobs(tier):
         continue
       out.append({"harness": "h_prio%d" % n, "part": {"lags": [0] * n, "kind": kind, "tier": tier, "stop_after": sa}, "expected": None,
                   "timeout": 300 if tier == "quick" else 1200})
+  return out
+
+def e2_scenarios(tier):
+  return [(dict(script="priorities", kinds=("fifo",)), 34)]
+
+
+DIFF_KW = dict(script="priorities", kinds=("fifo",))
+
+
+# ---- E2 part: the caller's subscribe/publish calls against the running delivery threads, every interleaving -------------------------------
+def e2_specs(tier):
+  out = []
+  to = 900 if tier == "quick" else 3000
+  for (kw, K) in e2_scenarios(tier):
+    out.append(dict(scenario="fabric_delivery", kwargs=kw, kind="reach", K=K, pred="fabric_all_delivered", timeout=to))
+    out.append(dict(scenario="fabric_delivery", kwargs=kw, kind="safety", K=K, pred="fabric_overdelivery", timeout=to, replay="fabric_delivery_replay"))
+    out.append(dict(scenario="fabric_delivery", kwargs=kw, kind="deadlock", K=K, pred="fabric_quiescent_wrong", timeout=to, replay="fabric_delivery_replay"))
+    out.append(dict(scenario="fabric_delivery", kwargs=kw, kind="adequacy", K=K, timeout=to))
+  return out
+
+
+def e2_signature(spec, r):
+  real = r["replay"]["real"]
+  script = spec["kwargs"]["script"]
+  if real["errors"]:
+    return ("delivery-raised:" + script, "%s; schedule: %s" % (real["errors"], r["trace"]), True)
+  from vf.e2 import check
+  from vf.e2.preds import fabric_allowed
+  sc, _sysm = check.build("fabric_delivery", spec["kwargs"])
+  idx = {rid: i for i, rid in enumerate(sc.info["events"])}
+  allowed = {q: [[idx[x] for x in alt] for alt in alts] for q, alts in fabric_allowed(sc).items()}
+  wrong = [q for q in ("q0", "q1") if real[q] not in allowed[q]]
+  if spec["kind"] == "safety":
+    over = [q for q in ("q0", "q1") if len(real[q]) > max(len(a) for a in allowed[q])]
+    return ("delivered-too-often:" + script, "script %s on the real fabric: queues %s / %s, allowed %s; schedule: %s" % (
+      spec["kwargs"]["script"], real["q0"], real["q1"], allowed, r["trace"]), bool(over))
+  return ("delivery-wrong-at-quiescence:" + script, "script %s on the real fabric, everybody idle: queues q0=%s q1=%s, allowed %s; schedule: %s" % (
+    script, real["q0"], real["q1"], allowed, r["trace"]), bool(wrong))
+
+
+def solver_part(tier, known):
+  from vf.e2 import propbase, harness
+  FUNCTIONS.extend(x for x in propbase.functions_of("fabric_delivery", e2_scenarios(tier)[0][0]) if x not in FUNCTIONS)
+  n = 6 if tier == "quick" else 24
+  out = propbase.run(e2_specs(tier), known, e2_signature, jobs=8,
+                     differential=lambda: harness.fabric_delivery_differential(DIFF_KW, n, seed=41))
+  out["coverage"]["e2_bounds"] = [{"kwargs": k, "K": K} for k, K in e2_scenarios(tier)]
   return out
